@@ -6,6 +6,7 @@ Theorems over `deleteLexicon` / `removeLexicon` (`Model/Remove.lean`) for every 
 import WnVerif.Model.Remove
 import WnVerif.Gen.Schema
 import WnVerif.Model.Add
+import WnVerif.Props.C01
 namespace WnVerif.Props.C05
 open WnVerif.Db
 
@@ -709,5 +710,925 @@ example : (removeLexicon demo 1).lexicons.map (·.id) = ["b"] := by decide
 example : (removeLexicon demo 1).forms.map (·.form) = ["dog"] := by decide
 example : (removeLexicon demo 1).deps = [⟨3, "a", "1", none, none⟩] := by decide
 example : extensionsOf demo 4 1 = [2] := by decide
+
+open WnVerif WnVerif.Doc WnVerif.Props.C01
+
+/-! ### `remove` undoes `add`: the relation, definition, example, count and sense tables -/
+
+/-- rowids of the rows of `old ++ rows` owned by `l`, when no old row is owned by `l` and all new ones are -/
+theorem del_eq_new {ρ} (old rows : List ρ) (lex rowid : ρ → Nat) (l : Nat)
+    (hold : ∀ o ∈ old, lex o ≠ l) (hnew : ∀ r ∈ rows, lex r = l) :
+    ((old ++ rows).filter (fun r => lex r == l)).map rowid = rows.map rowid := by
+  rw [List.filter_append]
+  have e1 : old.filter (fun r => lex r == l) = [] := by
+    rw [List.filter_eq_nil_iff]; intro o ho; simpa using hold o ho
+  have e2 : rows.filter (fun r => lex r == l) = rows := by
+    rw [List.filter_eq_self]; intro r hr; simpa using hnew r hr
+  rw [e1, e2, List.nil_append]
+
+theorem old_not_new {ρ} (old rows : List ρ) (rowid : ρ → Nat) (hn : ((old ++ rows).map rowid).Nodup) (x : Nat)
+    (hx : x ∈ old.map rowid) : x ∉ rows.map rowid := by
+  rw [List.map_append, List.nodup_append] at hn
+  intro h
+  exact hn.2.2 x hx x h rfl
+
+/-- a table whose rows are filtered by "not owned by `l` and not referring to deleted rows" -/
+theorem filter_restores {ρ} (old rows : List ρ) (gone : ρ → Bool)
+    (hold : ∀ o ∈ old, gone o = false) (hnew : ∀ r ∈ rows, gone r = true) :
+    (old ++ rows).filter (fun r => !gone r) = old := by
+  rw [List.filter_append]
+  have e1 : old.filter (fun r => !gone r) = old := by
+    rw [List.filter_eq_self]; intro o ho; simp [hold o ho]
+  have e2 : rows.filter (fun r => !gone r) = [] := by
+    rw [List.filter_eq_nil_iff]; intro r hr; simp [hnew r hr]
+  rw [e1, e2, List.append_nil]
+
+/-- **C05: `remove` undoes `add`** — deleting the lexicon that was just added restores the senses,
+the three relation tables, definitions, examples and counts exactly (for any lexicon, on any store
+satisfying the schema's foreign keys with unique rowids) -/
+theorem C05_add_then_delete_restores (norm : String → String) (dr : Nat) (db db' : Db) (l : Lexicon)
+    (h : addLexicon norm dr db l = .ok db') (fk : FK db)
+    (hnS : (db.senses.map (·.rowid)).Nodup) (hnE : (db.entries.map (·.rowid)).Nodup)
+    (hnY : (db.synsets.map (·.rowid)).Nodup) (hnI : (db.ilis.map (·.rowid)).Nodup) :
+    let d := deleteLexicon db' (nextId (db.lexicons.map (·.rowid)))
+    d.synsets = db.synsets ∧ d.senses = db.senses ∧ d.synrels = db.synrels ∧ d.senserels = db.senserels ∧
+    d.sensesynrels = db.sensesynrels ∧ d.synexs = db.synexs ∧ d.sensexs = db.sensexs ∧ d.counts = db.counts := by
+  obtain ⟨t⟩ := addLexicon_split norm dr db db' l h
+  have hlexid : t.lexid = nextId (db.lexicons.map (·.rowid)) := (insertLexicon_frame _ _ _ _ _ t.hlex).2.2.1
+  have hfresh : ∀ (x : Nat), (∃ y ∈ db.lexicons, y.rowid = x) → x ≠ t.lexid := by
+    rintro x ⟨y, hy, rfl⟩ e
+    have : t.lexid ∈ db.lexicons.map (·.rowid) := List.mem_map.mpr ⟨y, hy, e⟩
+    rw [hlexid] at this
+    exact nextId_not_mem _ this
+  rw [← hlexid]
+  -- tables
+  obtain ⟨_, g2, g3⟩ := insertLexicon_frame2 _ _ _ _ _ t.hlex
+  obtain ⟨hT, hYeq, rrows, hrr, hFr⟩ := addLexicon_synrel_table t
+  obtain ⟨hE, _, srows, hS, hFs, hnodS⟩ := addLexicon_sense_table t
+  obtain ⟨_, r2, hr2, hF2⟩ := addLexicon_senserel_table t
+  obtain ⟨_, r3, hr3, hF3⟩ := addLexicon_sensesynrel_table t
+  obtain ⟨⟨r4, hr4, hF4⟩, ⟨r5, hr5, hF5⟩, ⟨r6, hr6, hF6⟩⟩ := addLexicon_defs_tables t
+  obtain ⟨r7, hr7, hF7⟩ := addLexicon_counts_table t
+  have hd1i : t.d1.ilis = db.ilis := by
+    have h := t.hlex
+    unfold insertLexicon at h
+    simp only [bind, Except.bind, pure, Except.pure] at h
+    split at h
+    · simp [throw, throwThe, MonadExcept.throw] at h
+    · split at h
+      · split at h
+        · simp at h
+        · simp only [Except.ok.injEq, Prod.mk.injEq] at h
+          obtain ⟨h, _, _⟩ := h; rw [← h]; rfl
+      · simp only [Except.ok.injEq, Prod.mk.injEq] at h
+        obtain ⟨h, _, _⟩ := h; rw [← h]; rfl
+  obtain ⟨yrows, hyE, hyF⟩ := insertSynsets_rows t.d1 t.d2 l _ t.hsyn (by rw [hd1i]; exact hnI)
+  have hY : db'.synsets = db.synsets ++ yrows := by rw [hYeq, hyE, g2]; rfl
+  have hynew : ∀ r ∈ yrows, r.lex = t.lexid := Forall2.forall_right (fun _ _ hr => hr.2.1) hyF
+  have hyold : ∀ o ∈ db.synsets, o.lex ≠ t.lexid := fun o ho => hfresh _ (fk.synsets_lex o ho)
+  have hsnew : ∀ r ∈ srows, r.lex = t.lexid := Forall2.forall_right (fun _ _ hr => hr.2.1) hFs
+  have hsold : ∀ o ∈ db.senses, o.lex ≠ t.lexid := fun o ho => hfresh _ (fk.senses_lex o ho)
+  -- entries: old rows then new rows owned by the new lexicon
+  obtain ⟨erows, hEx, henew⟩ : ∃ erows, db'.entries = db.entries ++ erows ∧ ∀ r ∈ erows, r.lex = t.lexid := by
+    have e2 := (keepsF_insertSynsets l _ _ _ t.hsyn).1
+    have h3 := t.hent
+    unfold insertEntries at h3
+    obtain ⟨_, er, he, hFe⟩ := foldlM_rows1 (fun d => d.entries) (fun _ => ()) (entryStep t.ctx) (fun _ _ r => r.lex = t.lexid)
+      (fun b a b' hh => by
+        obtain ⟨r, hb, hr⟩ := entryStep_ok _ b b' a hh
+        exact ⟨rfl, r, by rw [hb], hr.1.2.1⟩) _ _ _ h3
+    exact ⟨er, by rw [hE, he, e2, g3]; rfl, Forall2.forall_right (P := fun (r : REntry) => r.lex = t.lexid) (fun _ _ hr => hr) hFe⟩
+  have heold : ∀ o ∈ db.entries, o.lex ≠ t.lexid := fun o ho => hfresh _ (fk.entries_lex o ho)
+  -- uniqueness of rowids after the add
+  have hnY' : (db'.synsets.map (·.rowid)).Nodup := by
+    rw [hYeq]; apply insertSynsets_nodupY _ _ _ _ t.hsyn; rw [g2]; exact hnY
+  have hnE' : (db'.entries.map (·.rowid)).Nodup := by
+    rw [hE]; apply insertEntries_nodupE _ _ _ _ t.hent
+    rw [(keepsF_insertSynsets l _ _ _ t.hsyn).1, g3]; exact hnE
+  have hnS' : (db'.senses.map (·.rowid)).Nodup := hnodS hnS
+  -- what the cascade reaches
+  have hYdel : synsetsDel db' t.lexid = yrows.map (·.rowid) := by
+    unfold synsetsDel; rw [hY]; exact del_eq_new db.synsets yrows (fun r => r.lex) (fun r => r.rowid) _ hyold hynew
+  have hEdel : entriesDel db' t.lexid = erows.map (·.rowid) := by
+    unfold entriesDel; rw [hEx]; exact del_eq_new db.entries erows (fun r => r.lex) (fun r => r.rowid) _ heold henew
+  have oldY : ∀ x, (∃ y ∈ db.synsets, y.rowid = x) → (synsetsDel db' t.lexid).contains x = false := by
+    rintro x ⟨y, hy, rfl⟩
+    rw [hYdel]
+    have := old_not_new db.synsets yrows (fun r => r.rowid) (by rw [← hY]; exact hnY') y.rowid (List.mem_map.mpr ⟨y, hy, rfl⟩)
+    simpa using this
+  have oldE : ∀ x, (∃ y ∈ db.entries, y.rowid = x) → (entriesDel db' t.lexid).contains x = false := by
+    rintro x ⟨y, hy, rfl⟩
+    rw [hEdel]
+    have := old_not_new db.entries erows (fun r => r.rowid) (by rw [← hEx]; exact hnE') y.rowid (List.mem_map.mpr ⟨y, hy, rfl⟩)
+    simpa using this
+  have hgoneOld : ∀ o ∈ db.senses, senseGone db' t.lexid o = false := by
+    intro o ho
+    unfold senseGone
+    have a1 : (o.lex == t.lexid) = false := by simpa using hsold o ho
+    rw [a1, oldE _ (fk.senses_entry o ho), oldY _ (fk.senses_synset o ho)]
+    rfl
+  have hgoneNew : ∀ r ∈ srows, senseGone db' t.lexid r = true := by
+    intro r hr
+    unfold senseGone
+    simp [hsnew r hr]
+  have hSdel : sensesDel db' t.lexid = srows.map (·.rowid) := by
+    unfold sensesDel
+    rw [hS, List.filter_append]
+    have e1 : db.senses.filter (senseGone db' t.lexid) = [] := by
+      rw [List.filter_eq_nil_iff]; intro o ho; simp [hgoneOld o ho]
+    have e2 : srows.filter (senseGone db' t.lexid) = srows := by
+      rw [List.filter_eq_self]; intro r hr; exact hgoneNew r hr
+    rw [e1, e2, List.nil_append]
+  have oldS : ∀ x, (∃ y ∈ db.senses, y.rowid = x) → (sensesDel db' t.lexid).contains x = false := by
+    rintro x ⟨y, hy, rfl⟩
+    rw [hSdel]
+    have := old_not_new db.senses srows (fun r => r.rowid) (by rw [← hS]; exact hnS') y.rowid (List.mem_map.mpr ⟨y, hy, rfl⟩)
+    simpa using this
+  have lexNe : ∀ x, (∃ y ∈ db.lexicons, y.rowid = x) → (x == t.lexid) = false := by
+    intro x hx; simpa using hfresh x hx
+  simp only [deleteLexicon]
+  refine ⟨?_, ?_, ?_, ?_, ?_, ?_, ?_, ?_⟩
+  · rw [hY]
+    have := filter_restores db.synsets yrows (fun r => r.lex == t.lexid) (fun o ho => by simpa using hyold o ho) (fun r hr => by simpa using hynew r hr)
+    simpa [bne] using this
+  · rw [hS]; exact filter_restores db.senses srows (senseGone db' t.lexid) hgoneOld hgoneNew
+  · rw [hrr]
+    exact filter_restores db.synrels rrows (fun r => r.lex == t.lexid || (synsetsDel db' t.lexid).contains r.source || (synsetsDel db' t.lexid).contains r.target)
+      (fun o ho => by rw [lexNe _ (fk.synrels_lex o ho), oldY _ (fk.synrels_source o ho), oldY _ (fk.synrels_target o ho)]; rfl)
+      (fun r hr => by have := Forall2.forall_right (fun _ _ hh => hh.1) hFr r hr; simp [show r.lex = t.lexid from this])
+  · rw [hr2]
+    exact filter_restores db.senserels r2 (fun r => r.lex == t.lexid || (sensesDel db' t.lexid).contains r.source || (sensesDel db' t.lexid).contains r.target)
+      (fun o ho => by rw [lexNe _ (fk.senserels_lex o ho), oldS _ (fk.senserels_source o ho), oldS _ (fk.senserels_target o ho)]; rfl)
+      (fun r hr => by have := Forall2.forall_right (fun _ _ hh => hh.1) hF2 r hr; simp [show r.lex = t.lexid from this])
+  · rw [hr3]
+    exact filter_restores db.sensesynrels r3 (fun r => r.lex == t.lexid || (sensesDel db' t.lexid).contains r.source || (synsetsDel db' t.lexid).contains r.target)
+      (fun o ho => by rw [lexNe _ (fk.ssrels_lex o ho), oldS _ (fk.ssrels_source o ho), oldY _ (fk.ssrels_target o ho)]; rfl)
+      (fun r hr => by have := Forall2.forall_right (fun _ _ hh => hh.1) hF3 r hr; simp [show r.lex = t.lexid from this])
+  · rw [hr5]
+    exact filter_restores db.synexs r5 (fun r => r.lex == t.lexid || (synsetsDel db' t.lexid).contains r.owner)
+      (fun o ho => by rw [lexNe _ (fk.synexs_lex o ho), oldY _ (fk.synexs_owner o ho)]; rfl)
+      (fun r hr => by have := Forall2.forall_right (fun _ _ hh => hh.1) hF5 r hr; simp [show r.lex = t.lexid from this])
+  · rw [hr6]
+    exact filter_restores db.sensexs r6 (fun r => r.lex == t.lexid || (sensesDel db' t.lexid).contains r.owner)
+      (fun o ho => by rw [lexNe _ (fk.sensexs_lex o ho), oldS _ (fk.sensexs_owner o ho)]; rfl)
+      (fun r hr => by have := Forall2.forall_right (fun _ _ hh => hh.1) hF6 r hr; simp [show r.lex = t.lexid from this])
+  · rw [hr7]
+    exact filter_restores db.counts r7 (fun r => r.lex == t.lexid || (sensesDel db' t.lexid).contains r.sense)
+      (fun o ho => by rw [lexNe _ (fk.counts_lex o ho), oldS _ (fk.counts_sense o ho)]; rfl)
+      (fun r hr => by have := Forall2.forall_right (fun _ _ hh => hh.1) hF7 r hr; simp [show r.lex = t.lexid from this])
+
+/-! ### `remove` undoes `add`, continued: entries, forms, and (plain lexicons) tags and pronunciations -/
+
+theorem addForm_rows (db db1 : Db) (norm : String → String) (lexid er : Nat) (id : Option String) (form : String)
+    (script : Option String) (rank : Nat) (h : addForm db norm lexid er id form script rank = .ok db1) :
+    ∃ r, db1.forms = db.forms ++ [r] ∧ r.lex = lexid ∧ r.entry = er := by
+  unfold addForm at h
+  simp only [bind, Except.bind, pure, Except.pure] at h
+  split at h
+  · simp [throw, throwThe, MonadExcept.throw] at h
+  · simp only [Except.ok.injEq] at h; subst h; exact ⟨_, rfl, rfl, rfl⟩
+
+theorem formStep_rows (norm : String → String) (c : Ctx) (e : Entry) (b : Db) (fi : Form × Nat) (b' : Db)
+    (h : formStep norm c e b fi = .ok b') : ∃ rs, b'.forms = b.forms ++ rs ∧ ∀ r ∈ rs, r.lex = c.lexid := by
+  unfold formStep at h
+  split at h
+  · simp only [Except.ok.injEq] at h; subst h; exact ⟨[], by simp, by simp⟩
+  · cases he : entryRow b e.id (c.lid e.id) with
+    | none => simp [he, need, bind, Except.bind] at h
+    | some er =>
+      simp only [he, need, bind, Except.bind] at h
+      obtain ⟨r, hr, hl, _⟩ := addForm_rows _ _ _ _ _ _ _ _ _ h
+      exact ⟨[r], hr, by simp [hl]⟩
+
+theorem forms_fold_rows (norm : String → String) (c : Ctx) (e : Entry) : ∀ (fis : List (Form × Nat)) (b b' : Db),
+    fis.foldlM (formStep norm c e) b = .ok b' → ∃ rs, b'.forms = b.forms ++ rs ∧ ∀ r ∈ rs, r.lex = c.lexid := by
+  intro fis b b' h
+  refine foldlM_ok_induct (formStep norm c e) (fun _ b b' => ∃ rs, b'.forms = b.forms ++ rs ∧ ∀ r ∈ rs, r.lex = c.lexid) ?_ ?_ fis b b' h
+  · intro b; exact ⟨[], by simp, by simp⟩
+  · intro a t b b1 b' h1 _ ih
+    obtain ⟨r1, e1, l1⟩ := formStep_rows norm c e b a b1 h1
+    obtain ⟨r2, e2, l2⟩ := ih
+    refine ⟨r1 ++ r2, by rw [e2, e1, List.append_assoc], ?_⟩
+    intro r hr
+    rcases List.mem_append.mp hr with hr | hr
+    · exact l1 r hr
+    · exact l2 r hr
+
+theorem entryFormsStep_rows (norm : String → String) (c : Ctx) (b : Db) (e : Entry) (b' : Db)
+    (h : entryFormsStep norm c b e = .ok b') : ∃ rs, b'.forms = b.forms ++ rs ∧ ∀ r ∈ rs, r.lex = c.lexid := by
+  unfold entryFormsStep at h
+  simp only [bind, Except.bind] at h
+  cases hx : e.external with
+  | true =>
+    simp only [hx, Bool.not_true, Bool.false_eq_true, if_false, pure, Except.pure] at h
+    exact forms_fold_rows norm c e _ _ _ h
+  | false =>
+    simp only [hx, Bool.not_false, if_true] at h
+    cases hl : e.lemma with
+    | none => simp [hl, need] at h
+    | some lem =>
+      simp only [hl, need] at h
+      cases he : entryRow b e.id (c.lid e.id) with
+      | none => simp [he] at h
+      | some er =>
+        simp only [he] at h
+        cases ha : addForm b norm c.lexid er none lem.form lem.script 0 with
+        | error x => simp [ha] at h
+        | ok b1 =>
+          simp only [ha] at h
+          obtain ⟨r, hr, hl', _⟩ := addForm_rows _ _ _ _ _ _ _ _ _ ha
+          obtain ⟨rs, hrs, hls⟩ := forms_fold_rows norm c e _ _ _ h
+          refine ⟨r :: rs, by rw [hrs, hr]; simp, ?_⟩
+          intro x hx'
+          rcases List.mem_cons.mp hx' with rfl | hx'
+          · exact hl'
+          · exact hls x hx'
+
+/-- the `forms` table after one `addLexicon`: old rows, then rows owned by the new lexicon -/
+theorem addLexicon_forms_table {norm : String → String} {dr : Nat} {db db' : Db} {l : Lexicon}
+    (t : AddTrace norm dr db db' l) : ∃ rows, db'.forms = db.forms ++ rows ∧ ∀ r ∈ rows, r.lex = t.lexid := by
+  let c : Ctx := ⟨t.lexid, t.extid, externalIds l⟩
+  let π : Db → List RForm := fun b => b.forms
+  have k1 : π t.d1 = π (updateLookups db l) := (insertLexicon_frame _ _ _ _ _ t.hlex).2.1
+  have k2 : π t.d2 = π t.d1 := keepsGF_insertSynsets π l c (fun p => by keepsG_step presupStep)
+    (by keepsG_step synsetStep) (by keepsG_step piliStep) _ _ t.hsyn
+  have k3 : π t.d3 = π t.d2 := keepsGF_insertEntries π l c (by keepsG_step entryStep) _ _ t.hent
+  have hform := t.hform
+  unfold insertForms at hform
+  obtain ⟨_, rss, hr, hF⟩ := foldlM_rowsL (fun d => d.forms) (fun _ => ()) (entryFormsStep norm c)
+    (fun _ _ rs => ∀ r ∈ rs, r.lex = t.lexid)
+    (fun b e b' hh => by
+      obtain ⟨rs, h1, h2⟩ := entryFormsStep_rows norm c b e b' hh
+      exact ⟨rfl, rs, h1, h2⟩) _ _ _ hform
+  have k5 : π t.d5 = π t.d4 := keepsGF_insertPronsTags π l c (fun _ _ _ => by keepsG_step pronStep)
+    (fun _ _ _ => by keepsG_step tagStep) _ _ t.hpt
+  have k6 : π t.d6 = π t.d5 := keepsGF_insertSenses π l c dr (fun _ => by keepsG_step senseStep)
+    (by keepsG_step adjStep) (fun _ => by keepsG_step countStep) _ _ t.hsen
+  have k7 : π t.d7 = π t.d6 := keepsGF_insertSbs π t.sbs c (by keepsG_step sbStep) (fun _ => by keepsG_step sbSenseStep) _ _ t.hsb
+  have k8 : π t.d8 = π t.d7 := keepsGF_insertRelations π l c (fun _ => by keepsG_step synRelStep)
+    (by keepsG_step senseRelStep) (by keepsG_step senseSynRelStep) _ _ t.hrel
+  have k9 : π db' = π t.d8 := keepsGF_insertDefsExamples π l c (fun _ => by keepsG_step defStep)
+    (fun _ => by keepsG_step senseExampleStep) (fun _ => by keepsG_step synsetExampleStep) _ _ t.hdx
+  refine ⟨rss.flatten, ?_, ?_⟩
+  · show π db' = _
+    rw [k9, k8, k7, k6, k5]
+    show t.d4.forms = _
+    rw [hr]
+    have : t.d3.forms = db.forms := by
+      show π t.d3 = _
+      rw [k3, k2, k1]; rfl
+    rw [this]
+  · intro r hr'
+    obtain ⟨rs, hrs, hrr⟩ := List.mem_flatten.mp hr'
+    obtain ⟨e, _, he⟩ := Forall2.exists_of_mem_right hF rs hrs
+    exact he r hrr
+
+theorem addForm_nodup (db db1 : Db) (norm : String → String) (lexid er : Nat) (id : Option String) (form : String)
+    (script : Option String) (rank : Nat) (h : addForm db norm lexid er id form script rank = .ok db1)
+    (hn : (db.forms.map (·.rowid)).Nodup) : (db1.forms.map (·.rowid)).Nodup := by
+  unfold addForm at h
+  simp only [bind, Except.bind, pure, Except.pure] at h
+  split at h
+  · simp [throw, throwThe, MonadExcept.throw] at h
+  · simp only [Except.ok.injEq] at h; subst h
+    simp only [List.map_append, List.map_cons, List.map_nil]
+    rw [List.nodup_append]
+    refine ⟨hn, by simp, ?_⟩
+    intro a ha b hb
+    simp only [List.mem_singleton] at hb
+    subst hb
+    intro e; subst e
+    exact nextId_not_mem _ ha
+
+theorem formStep_nodup (norm : String → String) (c : Ctx) (e : Entry) (b : Db) (fi : Form × Nat) (b' : Db)
+    (h : formStep norm c e b fi = .ok b') (hn : (b.forms.map (·.rowid)).Nodup) : (b'.forms.map (·.rowid)).Nodup := by
+  unfold formStep at h
+  split at h
+  · simp only [Except.ok.injEq] at h; subst h; exact hn
+  · cases he : entryRow b e.id (c.lid e.id) with
+    | none => simp [he, need, bind, Except.bind] at h
+    | some er =>
+      simp only [he, need, bind, Except.bind] at h
+      exact addForm_nodup _ _ _ _ _ _ _ _ _ h hn
+
+theorem entryFormsStep_nodup (norm : String → String) (c : Ctx) (b : Db) (e : Entry) (b' : Db)
+    (h : entryFormsStep norm c b e = .ok b') (hn : (b.forms.map (·.rowid)).Nodup) : (b'.forms.map (·.rowid)).Nodup := by
+  unfold entryFormsStep at h
+  simp only [bind, Except.bind] at h
+  cases hx : e.external with
+  | true =>
+    simp only [hx, Bool.not_true, Bool.false_eq_true, if_false, pure, Except.pure] at h
+    exact foldlM_inv (fun d => (d.forms.map (·.rowid)).Nodup) _ (fun b a b' hh => formStep_nodup norm c e b a b' hh) _ _ _ h hn
+  | false =>
+    simp only [hx, Bool.not_false, if_true] at h
+    cases hl : e.lemma with
+    | none => simp [hl, need] at h
+    | some lem =>
+      simp only [hl, need] at h
+      cases he : entryRow b e.id (c.lid e.id) with
+      | none => simp [he] at h
+      | some er =>
+        simp only [he] at h
+        cases ha : addForm b norm c.lexid er none lem.form lem.script 0 with
+        | error x => simp [ha] at h
+        | ok b1 =>
+          simp only [ha] at h
+          exact foldlM_inv (fun d => (d.forms.map (·.rowid)).Nodup) _ (fun b a b' hh => formStep_nodup norm c e b a b' hh) _ _ _ h
+            (addForm_nodup _ _ _ _ _ _ _ _ _ ha hn)
+
+theorem addLexicon_forms_nodup {norm : String → String} {dr : Nat} {db db' : Db} {l : Lexicon}
+    (t : AddTrace norm dr db db' l) (hn : (db.forms.map (·.rowid)).Nodup) : (db'.forms.map (·.rowid)).Nodup := by
+  let c : Ctx := ⟨t.lexid, t.extid, externalIds l⟩
+  let π : Db → List RForm := fun b => b.forms
+  have k1 : π t.d1 = π (updateLookups db l) := (insertLexicon_frame _ _ _ _ _ t.hlex).2.1
+  have k2 : π t.d2 = π t.d1 := keepsGF_insertSynsets π l c (fun p => by keepsG_step presupStep)
+    (by keepsG_step synsetStep) (by keepsG_step piliStep) _ _ t.hsyn
+  have k3 : π t.d3 = π t.d2 := keepsGF_insertEntries π l c (by keepsG_step entryStep) _ _ t.hent
+  have hform := t.hform
+  unfold insertForms at hform
+  have h4 : (t.d4.forms.map (·.rowid)).Nodup :=
+    foldlM_inv (fun d => (d.forms.map (·.rowid)).Nodup) _ (fun b a b' hh => entryFormsStep_nodup norm c b a b' hh) _ _ _ hform
+      (by
+        have : t.d3.forms = db.forms := by
+          show π t.d3 = _
+          rw [k3, k2, k1]; rfl
+        rw [this]; exact hn)
+  have k5 : π t.d5 = π t.d4 := keepsGF_insertPronsTags π l c (fun _ _ _ => by keepsG_step pronStep)
+    (fun _ _ _ => by keepsG_step tagStep) _ _ t.hpt
+  have k6 : π t.d6 = π t.d5 := keepsGF_insertSenses π l c dr (fun _ => by keepsG_step senseStep)
+    (by keepsG_step adjStep) (fun _ => by keepsG_step countStep) _ _ t.hsen
+  have k7 : π t.d7 = π t.d6 := keepsGF_insertSbs π t.sbs c (by keepsG_step sbStep) (fun _ => by keepsG_step sbSenseStep) _ _ t.hsb
+  have k8 : π t.d8 = π t.d7 := keepsGF_insertRelations π l c (fun _ => by keepsG_step synRelStep)
+    (by keepsG_step senseRelStep) (by keepsG_step senseSynRelStep) _ _ t.hrel
+  have k9 : π db' = π t.d8 := keepsGF_insertDefsExamples π l c (fun _ => by keepsG_step defStep)
+    (fun _ => by keepsG_step senseExampleStep) (fun _ => by keepsG_step synsetExampleStep) _ _ t.hdx
+  have : db'.forms = t.d4.forms := by
+    show π db' = _
+    rw [k9, k8, k7, k6, k5]
+  rw [this]; exact h4
+
+/-- **C05: `remove` undoes `add`, forms level** — entries and forms are restored for any lexicon; for
+a plain lexicon (every id resolved in the new lexicon) so are tags and pronunciations: nothing the
+add wrote on forms survives (the residue of finding F12 needs an *extension* writing on base forms) -/
+theorem C05_add_then_delete_restores_forms (norm : String → String) (dr : Nat) (db db' : Db) (l : Lexicon)
+    (h : addLexicon norm dr db l = .ok db') (fk : FK db)
+    (hnE : (db.entries.map (·.rowid)).Nodup) (hnF : (db.forms.map (·.rowid)).Nodup) :
+    let d := deleteLexicon db' (nextId (db.lexicons.map (·.rowid)))
+    d.entries = db.entries ∧ d.forms = db.forms ∧
+    (l.ext = none → d.tags = db.tags ∧ d.prons = db.prons) := by
+  obtain ⟨t⟩ := addLexicon_split norm dr db db' l h
+  obtain ⟨_, _, hlexid0, hextid⟩ := insertLexicon_frame _ _ _ _ _ t.hlex
+  have hlexid : t.lexid = nextId (db.lexicons.map (·.rowid)) := hlexid0
+  have hfresh : ∀ (x : Nat), (∃ y ∈ db.lexicons, y.rowid = x) → x ≠ t.lexid := by
+    rintro x ⟨y, hy, rfl⟩ e
+    have : t.lexid ∈ db.lexicons.map (·.rowid) := List.mem_map.mpr ⟨y, hy, e⟩
+    rw [hlexid] at this
+    exact nextId_not_mem _ this
+  rw [← hlexid]
+  obtain ⟨_, _, g3⟩ := insertLexicon_frame2 _ _ _ _ _ t.hlex
+  obtain ⟨hE, _, _, _, _, _⟩ := addLexicon_sense_table t
+  obtain ⟨frows, hF, hfnew⟩ := addLexicon_forms_table t
+  obtain ⟨⟨trows, hT, hFT⟩, ⟨prows, hP, hFP⟩⟩ := addLexicon_tags_prons_tables t
+  obtain ⟨erows, hEx, henew⟩ : ∃ erows, db'.entries = db.entries ++ erows ∧ ∀ r ∈ erows, r.lex = t.lexid := by
+    have e2 := (keepsF_insertSynsets l _ _ _ t.hsyn).1
+    have h3 := t.hent
+    unfold insertEntries at h3
+    obtain ⟨_, er, he, hFe⟩ := foldlM_rows1 (fun d => d.entries) (fun _ => ()) (entryStep t.ctx) (fun _ _ r => r.lex = t.lexid)
+      (fun b a b' hh => by
+        obtain ⟨r, hb, hr⟩ := entryStep_ok _ b b' a hh
+        exact ⟨rfl, r, by rw [hb], hr.1.2.1⟩) _ _ _ h3
+    exact ⟨er, by rw [hE, he, e2, g3]; rfl, Forall2.forall_right (P := fun (r : REntry) => r.lex = t.lexid) (fun _ _ hr => hr) hFe⟩
+  have heold : ∀ o ∈ db.entries, o.lex ≠ t.lexid := fun o ho => hfresh _ (fk.entries_lex o ho)
+  have hfold : ∀ o ∈ db.forms, o.lex ≠ t.lexid := fun o ho => hfresh _ (fk.forms_lex o ho)
+  have hnE' : (db'.entries.map (·.rowid)).Nodup := by
+    rw [hE]; apply insertEntries_nodupE _ _ _ _ t.hent
+    rw [(keepsF_insertSynsets l _ _ _ t.hsyn).1, g3]; exact hnE
+  have hnF' : (db'.forms.map (·.rowid)).Nodup := addLexicon_forms_nodup t hnF
+  have hEdel : entriesDel db' t.lexid = erows.map (·.rowid) := by
+    unfold entriesDel; rw [hEx]; exact del_eq_new db.entries erows (fun r => r.lex) (fun r => r.rowid) _ heold henew
+  have oldE : ∀ x, (∃ y ∈ db.entries, y.rowid = x) → (entriesDel db' t.lexid).contains x = false := by
+    rintro x ⟨y, hy, rfl⟩
+    rw [hEdel]
+    have := old_not_new db.entries erows (fun r => r.rowid) (by rw [← hEx]; exact hnE') y.rowid (List.mem_map.mpr ⟨y, hy, rfl⟩)
+    simpa using this
+  have hgoneOld : ∀ o ∈ db.forms, formGone db' t.lexid o = false := by
+    intro o ho
+    unfold formGone
+    have a1 : (o.lex == t.lexid) = false := by simpa using hfold o ho
+    rw [a1, oldE _ (fk.forms_entry o ho)]; rfl
+  have hgoneNew : ∀ r ∈ frows, formGone db' t.lexid r = true := by
+    intro r hr; unfold formGone; simp [hfnew r hr]
+  have hFdel : formsDel db' t.lexid = frows.map (·.rowid) := by
+    unfold formsDel
+    rw [hF, List.filter_append]
+    have e1 : db.forms.filter (formGone db' t.lexid) = [] := by
+      rw [List.filter_eq_nil_iff]; intro o ho; simp [hgoneOld o ho]
+    have e2 : frows.filter (formGone db' t.lexid) = frows := by
+      rw [List.filter_eq_self]; intro r hr; exact hgoneNew r hr
+    rw [e1, e2, List.nil_append]
+  have oldF : ∀ x, (∃ y ∈ db.forms, y.rowid = x) → (formsDel db' t.lexid).contains x = false := by
+    rintro x ⟨y, hy, rfl⟩
+    rw [hFdel]
+    have := old_not_new db.forms frows (fun r => r.rowid) (by rw [← hF]; exact hnF') y.rowid (List.mem_map.mpr ⟨y, hy, rfl⟩)
+    simpa using this
+  simp only [deleteLexicon]
+  refine ⟨?_, ?_, ?_⟩
+  · rw [hEx]
+    have := filter_restores db.entries erows (fun r => r.lex == t.lexid) (fun o ho => by simpa using heold o ho) (fun r hr => by simpa using henew r hr)
+    simpa [bne] using this
+  · rw [hF]; exact filter_restores db.forms frows (formGone db' t.lexid) hgoneOld hgoneNew
+  · intro hplain
+    have hlid : ∀ i, t.ctx.lid i = t.lexid := by
+      intro i; unfold Ctx.lid AddTrace.ctx; simp [hextid hplain]
+    -- a form found through an entry of the new lexicon is deleted with it
+    have hres : ∀ (eid : String) (fid : Option String) (rank : Option Nat) (x : Nat),
+        formRowEF (db'.entries, db'.forms) eid t.lexid fid rank = some x → (formsDel db' t.lexid).contains x = true := by
+      intro eid fid rank x hx
+      unfold formRowEF at hx
+      simp only at hx
+      cases he : db'.entries.find? (fun r => r.id == eid && r.lex == t.lexid) with
+      | none => rw [he] at hx; cases hx
+      | some er =>
+        rw [he] at hx
+        simp only at hx
+        obtain ⟨f, hf, hx⟩ := Option.map_eq_some_iff.mp hx
+        · have hfm := List.mem_of_find?_eq_some hf
+          have hfp := List.find?_some hf
+          have hem := List.mem_of_find?_eq_some he
+          have hep := List.find?_some he
+          simp only [Bool.and_eq_true, beq_iff_eq] at hep hfp
+          have hgone : formGone db' t.lexid f = true := by
+            unfold formGone
+            have : (entriesDel db' t.lexid).contains f.entry = true := by
+              rw [List.contains_iff_mem, mem_entriesDel]
+              exact ⟨er, hem, hep.2, hfp.1.symm⟩
+            rw [this, Bool.or_true]
+          rw [List.contains_iff_mem, mem_formsDel]
+          exact ⟨f, hfm, hgone, hx⟩
+    constructor
+    · rw [hT]
+      exact filter_restores db.tags trows (fun r => (formsDel db' t.lexid).contains r.form)
+        (fun o ho => oldF _ (fk.tags_form o ho))
+        (fun r hr => by
+          obtain ⟨q, _, hq⟩ := Forall2.exists_of_mem_right hFT r hr
+          have := hq.1
+          rw [hlid] at this
+          exact hres _ _ _ _ this)
+    · rw [hP]
+      exact filter_restores db.prons prows (fun r => (formsDel db' t.lexid).contains r.form)
+        (fun o ho => oldF _ (fk.prons_form o ho))
+        (fun r hr => by
+          obtain ⟨q, _, hq⟩ := Forall2.exists_of_mem_right hFP r hr
+          have := hq.1
+          rw [hlid] at this
+          exact hres _ _ _ _ this)
+
+/-! ### `remove` undoes `add`, the remaining tables -/
+
+theorem foldlM_rowsP {α ρ β} (tbl : Db → List ρ) (frame : Db → β) (f : Db → α → R Db) (P : β → ρ → Prop)
+    (hstep : ∀ b a b', f b a = .ok b' → frame b' = frame b ∧ ∃ rs, tbl b' = tbl b ++ rs ∧ ∀ r ∈ rs, P (frame b) r) :
+    ∀ (l : List α) (b b' : Db), l.foldlM f b = .ok b' →
+      frame b' = frame b ∧ ∃ rs, tbl b' = tbl b ++ rs ∧ ∀ r ∈ rs, P (frame b) r := by
+  intro l b b' h
+  obtain ⟨hf, rss, ht, hF⟩ := foldlM_rowsL tbl frame f (fun fr _ rs => ∀ r ∈ rs, P fr r) hstep l b b' h
+  refine ⟨hf, rss.flatten, ht, ?_⟩
+  intro r hr
+  obtain ⟨rs, hrs, hrr⟩ := List.mem_flatten.mp hr
+  obtain ⟨a, _, ha⟩ := Forall2.exists_of_mem_right hF rs hrs
+  exact ha r hrr
+
+theorem piliStep_rows (c : Ctx) (b : Db) (ss : Synset) (b' : Db) (h : piliStep c b ss = .ok b') :
+    b'.synsets = b.synsets ∧ ∃ rs, b'.pilis = b.pilis ++ rs ∧
+      ∀ r ∈ rs, ∃ y ∈ b.synsets, y.lex = c.lexid ∧ y.rowid = r.synset := by
+  unfold piliStep at h
+  split at h
+  · simp only [bind, Except.bind, need, pure, Except.pure] at h
+    cases h1 : synsetRow b ss.id c.lexid with
+    | none => simp [h1] at h
+    | some sr =>
+      simp only [h1] at h
+      split at h
+      · simp [throw, throwThe, MonadExcept.throw] at h
+      · simp only [Except.ok.injEq] at h
+        subst h
+        obtain ⟨y, _, hy, _, hyl, hyr⟩ := synsetRowY'_some _ _ _ _ h1
+        exact ⟨rfl, [_], rfl, by intro r hr; simp only [List.mem_singleton] at hr; subst hr; exact ⟨y, hy, hyl, hyr⟩⟩
+  · simp only [Except.ok.injEq] at h; subst h; exact ⟨rfl, [], by simp, by simp⟩
+
+theorem adjStep_rows (c : Ctx) (b : Db) (s : Sense) (b' : Db) (h : adjStep c b s = .ok b') :
+    b'.senses = b.senses ∧ ∃ rs, b'.adjs = b.adjs ++ rs ∧
+      ∀ r ∈ rs, ∃ x ∈ b.senses, x.rowid = r.sense ∧ ∃ i, x.lex = c.lid i := by
+  unfold adjStep at h
+  split at h
+  · split at h
+    · simp only [bind, Except.bind, need, pure, Except.pure] at h
+      cases h1 : senseRow b s.id (c.lid s.id) with
+      | none => simp [h1] at h
+      | some sr =>
+        simp only [h1, Except.ok.injEq] at h
+        subst h
+        obtain ⟨x, hx, _, hxl, hxr⟩ := senseRowS'_some' _ _ _ _ h1
+        exact ⟨rfl, [_], rfl, by intro r hr; simp only [List.mem_singleton] at hr; subst hr; exact ⟨x, hx, hxr, s.id, hxl⟩⟩
+    · simp only [Except.ok.injEq] at h; subst h; exact ⟨rfl, [], by simp, by simp⟩
+  · simp only [Except.ok.injEq] at h; subst h; exact ⟨rfl, [], by simp, by simp⟩
+
+theorem sbStep_rows (c : Ctx) (b : Db) (sb : Sb) (b' : Db) (h : sbStep c b sb = .ok b') :
+    ∃ rs, b'.sbs = b.sbs ++ rs ∧ ∀ r ∈ rs, r.lex = c.lexid ∧ r.rowid ∉ b.sbs.map (·.rowid) := by
+  unfold sbStep at h
+  simp only [bind, Except.bind, pure, Except.pure] at h
+  repeat' (split at h)
+  all_goals first
+    | (simp only [Except.ok.injEq] at h; subst h
+       exact ⟨[_], rfl, by intro r hr; simp only [List.mem_singleton] at hr; subst hr; exact ⟨rfl, nextId_not_mem _⟩⟩)
+    | (simp [throw, throwThe, MonadExcept.throw] at h)
+
+theorem sbSenseStep_rows (c : Ctx) (sb : Sb) (b : Db) (sid : String) (b' : Db) (h : sbSenseStep c sb b sid = .ok b') :
+    b'.sbs = b.sbs ∧ ∃ rs, b'.sbsenses = b.sbsenses ++ rs ∧ ∀ r ∈ rs, ∃ x ∈ b.sbs, x.lex = c.lexid ∧ x.rowid = r.sb := by
+  unfold sbSenseStep at h
+  simp only [bind, Except.bind, need, pure, Except.pure] at h
+  cases h1 : b.sbs.find? (fun r => r.lex == c.lexid && r.frame == sb.frame) with
+  | none => simp [h1] at h
+  | some x =>
+    simp only [h1, Option.map_some] at h
+    cases h2 : senseRow b sid (c.lid sid) with
+    | none => simp [h2] at h
+    | some sr =>
+      simp only [h2, Except.ok.injEq] at h
+      subst h
+      have hp := List.find?_some h1
+      simp only [Bool.and_eq_true, beq_iff_eq] at hp
+      exact ⟨rfl, [_], rfl, by intro r hr; simp only [List.mem_singleton] at hr; subst hr; exact ⟨x, List.mem_of_find?_eq_some h1, hp.1, rfl⟩⟩
+
+theorem insertSynsets_split (l : Lexicon) (c : Ctx) (b b' : Db) (h : insertSynsets b l c = .ok b') :
+    ∃ presup b1 b2, (localSynsets l).foldlM (presupStep presup) b = .ok b1 ∧ (localSynsets l).foldlM (synsetStep c) b1 = .ok b2 ∧
+      (localSynsets l).foldlM (piliStep c) b2 = .ok b' := by
+  unfold insertSynsets at h
+  simp only [bind, Except.bind] at h
+  cases hp : need "ili status" (lookupId b.ilistatuses "presupposed") with
+  | error e => rw [hp] at h; simp at h
+  | ok presup =>
+    rw [hp] at h
+    simp only at h
+    cases h1 : (localSynsets l).foldlM (presupStep presup) b with
+    | error e => rw [h1] at h; simp at h
+    | ok b1 =>
+      rw [h1] at h
+      simp only at h
+      cases h2 : (localSynsets l).foldlM (synsetStep c) b1 with
+      | error e => rw [h2] at h; simp at h
+      | ok b2 =>
+        rw [h2] at h
+        exact ⟨presup, b1, b2, h1, h2, h⟩
+
+theorem insertSbs_split (sbs : List Sb) (c : Ctx) (b b' : Db) (h : insertSbs b sbs c = .ok b') :
+    ∃ b1, sbs.foldlM (sbStep c) b = .ok b1 ∧ sbs.foldlM (fun db sb => sb.senses.foldlM (sbSenseStep c sb) db) b1 = .ok b' := by
+  unfold insertSbs at h
+  simp only [bind, Except.bind] at h
+  cases h1 : sbs.foldlM (sbStep c) b with
+  | error e => rw [h1] at h; simp at h
+  | ok b1 => rw [h1] at h; exact ⟨b1, rfl, h⟩
+
+/-- the remaining owned tables after one `addLexicon` -/
+theorem addLexicon_misc_tables {norm : String → String} {dr : Nat} {db db' : Db} {l : Lexicon}
+    (t : AddTrace norm dr db db' l) :
+    (∃ rows, db'.pilis = db.pilis ++ rows ∧ ∀ r ∈ rows, ∃ y ∈ db'.synsets, y.lex = t.lexid ∧ y.rowid = r.synset) ∧
+    (∃ rows, db'.adjs = db.adjs ++ rows ∧ ∀ r ∈ rows, ∃ x ∈ db'.senses, x.rowid = r.sense ∧ ∃ i, x.lex = t.ctx.lid i) ∧
+    (∃ rows, db'.sbs = db.sbs ++ rows ∧ ∀ r ∈ rows, r.lex = t.lexid ∧ r.rowid ∉ db.sbs.map (·.rowid)) ∧
+    (∃ rows, db'.sbsenses = db.sbsenses ++ rows ∧ ∀ r ∈ rows, ∃ x ∈ db'.sbs, x.lex = t.lexid ∧ x.rowid = r.sb) := by
+  let c : Ctx := ⟨t.lexid, t.extid, externalIds l⟩
+  -- (pilis, adjs, sbs, sbsenses) are untouched by every pass except the one writing each
+  let π : Db → List RPIli × List RAdj × List RSb × List RSbSense := fun b => (b.pilis, b.adjs, b.sbs, b.sbsenses)
+  have k1 : π t.d1 = π (updateLookups db l) := by
+    have h := t.hlex
+    unfold insertLexicon at h
+    simp only [bind, Except.bind, pure, Except.pure] at h
+    split at h
+    · simp [throw, throwThe, MonadExcept.throw] at h
+    · split at h
+      · split at h
+        · simp at h
+        · simp only [Except.ok.injEq, Prod.mk.injEq] at h
+          obtain ⟨h, _, _⟩ := h; rw [← h]
+      · simp only [Except.ok.injEq, Prod.mk.injEq] at h
+        obtain ⟨h, _, _⟩ := h; rw [← h]
+  -- insertSynsets
+  obtain ⟨presup, s1, s2, hs1, hs2, hs3⟩ := insertSynsets_split l c _ _ t.hsyn
+  have p1 : π s1 = π t.d1 := keepsGF_fold π _ (by keepsG_step presupStep) _ _ _ hs1
+  have p2 : π s2 = π s1 := keepsGF_fold π _ (by keepsG_step synsetStep) _ _ _ hs2
+  obtain ⟨fY, prow, hprow, hpP⟩ := foldlM_rowsP (fun d => d.pilis) (fun d => d.synsets) (piliStep c)
+    (fun Y r => ∃ y ∈ Y, y.lex = c.lexid ∧ y.rowid = r.synset) (fun b a b' hh => piliStep_rows c b a b' hh) _ _ _ hs3
+  let π3 : Db → List RAdj × List RSb × List RSbSense := fun b => (b.adjs, b.sbs, b.sbsenses)
+  have p3 : π3 t.d2 = π3 s2 := keepsGF_fold π3 _ (by keepsG_step piliStep) _ _ _ hs3
+  have k3 : π t.d3 = π t.d2 := keepsGF_insertEntries π l c (by keepsG_step entryStep) _ _ t.hent
+  have k4 : π t.d4 = π t.d3 := keepsGF_insertForms π (fun _ _ => rfl) norm l c _ _ t.hform
+  have k5 : π t.d5 = π t.d4 := keepsGF_insertPronsTags π l c (fun _ _ _ => by keepsG_step pronStep)
+    (fun _ _ _ => by keepsG_step tagStep) _ _ t.hpt
+  -- insertSenses
+  obtain ⟨n1, n2, hn1, hn2, hn3⟩ := insertSenses_split l c dr _ _ t.hsen
+  have q1 : π n1 = π t.d5 := keepsGF_fold π _ (keepsG_nested π (fun (e : Entry) => (localSenses e).zipIdx) (fun e => senseStep l c dr e)
+    (fun _ => by keepsG_step senseStep)) _ _ _ hn1
+  obtain ⟨fS, arow, harow, haP⟩ := foldlM_rowsP (fun d => d.adjs) (fun d => d.senses)
+    (fun db (e : Entry) => (localSenses e).foldlM (adjStep c) db)
+    (fun S r => ∃ x ∈ S, x.rowid = r.sense ∧ ∃ i, x.lex = c.lid i)
+    (fun b e b' hh => foldlM_rowsP (fun d => d.adjs) (fun d => d.senses) (adjStep c)
+      (fun S r => ∃ x ∈ S, x.rowid = r.sense ∧ ∃ i, x.lex = c.lid i) (fun b a b' hh => adjStep_rows c b a b' hh) _ b b' hh) _ _ _ hn2
+  let π2 : Db → List RPIli × List RSb × List RSbSense := fun b => (b.pilis, b.sbs, b.sbsenses)
+  have q2 : π2 n2 = π2 n1 := keepsGF_fold π2 _ (keepsG_nested π2 (fun e => localSenses e) (fun _ => adjStep c) (fun _ => by keepsG_step adjStep)) _ _ _ hn2
+  let π5 : Db → List RPIli × List RAdj × List RSb × List RSbSense × List RSense := fun b => (b.pilis, b.adjs, b.sbs, b.sbsenses, b.senses)
+  have q3 : π5 t.d6 = π5 n2 := by
+    apply keepsGF_fold π5 _ _ _ _ _ hn3
+    apply keepsG_nested π5 (fun (e : Entry) => e.senses) (fun _ db s => s.counts.foldlM (countStep c s) db)
+    intro _
+    exact fun b s b' h => fold_keepsG π5 _ (by keepsG_step countStep) b s.counts b' h
+  -- insertSbs
+  obtain ⟨m1, hm1, hm2⟩ := insertSbs_split t.sbs c _ _ t.hsb
+  obtain ⟨srow, hsrow, hsP⟩ : ∃ rs, m1.sbs = t.d6.sbs ++ rs ∧ ∀ r ∈ rs, r.lex = c.lexid ∧ r.rowid ∉ t.d6.sbs.map (·.rowid) :=
+    foldlM_inv (fun d => ∃ rs, d.sbs = t.d6.sbs ++ rs ∧ ∀ r ∈ rs, r.lex = c.lexid ∧ r.rowid ∉ t.d6.sbs.map (·.rowid)) (sbStep c)
+      (fun b a b' hh ⟨rs, hrs, hP⟩ => by
+        obtain ⟨r1, h1, h2⟩ := sbStep_rows c b a b' hh
+        refine ⟨rs ++ r1, by rw [h1, hrs, List.append_assoc], ?_⟩
+        intro r hr
+        rcases List.mem_append.mp hr with hr | hr
+        · exact hP r hr
+        · obtain ⟨q1, q2⟩ := h2 r hr
+          refine ⟨q1, fun hmem => q2 ?_⟩
+          rw [hrs, List.map_append]
+          exact List.mem_append_left _ hmem) _ _ _ hm1 ⟨[], by simp, by simp⟩
+  let π6 : Db → List RPIli × List RAdj × List RSbSense × List RSense := fun b => (b.pilis, b.adjs, b.sbsenses, b.senses)
+  have m1k : π6 m1 = π6 t.d6 := keepsGF_fold π6 _ (by keepsG_step sbStep) _ _ _ hm1
+  obtain ⟨fB, brow, hbrow, hbP⟩ := foldlM_rowsP (fun d => d.sbsenses) (fun d => d.sbs)
+    (fun db (sb : Sb) => sb.senses.foldlM (sbSenseStep c sb) db)
+    (fun SB r => ∃ x ∈ SB, x.lex = c.lexid ∧ x.rowid = r.sb)
+    (fun b sb b' hh => foldlM_rowsP (fun d => d.sbsenses) (fun d => d.sbs) (sbSenseStep c sb)
+      (fun SB r => ∃ x ∈ SB, x.lex = c.lexid ∧ x.rowid = r.sb) (fun b a b' hh => sbSenseStep_rows c sb b a b' hh) _ b b' hh) _ _ _ hm2
+  let π7 : Db → List RPIli × List RAdj × List RSense := fun b => (b.pilis, b.adjs, b.senses)
+  have m2k : π7 t.d7 = π7 m1 := keepsGF_fold π7 _ (keepsG_nested π7 (fun (sb : Sb) => sb.senses) (fun sb => sbSenseStep c sb)
+    (fun _ => by keepsG_step sbSenseStep)) _ _ _ hm2
+  -- afterwards
+  let π8 : Db → List RPIli × List RAdj × List RSb × List RSbSense × List RSense × List RSynset := fun b => (b.pilis, b.adjs, b.sbs, b.sbsenses, b.senses, b.synsets)
+  have a8 : π8 t.d8 = π8 t.d7 := keepsGF_insertRelations π8 l c (fun _ => by keepsG_step synRelStep)
+    (by keepsG_step senseRelStep) (by keepsG_step senseSynRelStep) _ _ t.hrel
+  have a9 : π8 db' = π8 t.d8 := keepsGF_insertDefsExamples π8 l c (fun _ => by keepsG_step defStep)
+    (fun _ => by keepsG_step senseExampleStep) (fun _ => by keepsG_step synsetExampleStep) _ _ t.hdx
+  have hpost : π8 db' = π8 t.d7 := by rw [a9, a8]
+  -- synsets and senses as seen by the row properties
+  obtain ⟨_, hYeq, _⟩ := addLexicon_synrel_table t
+  have hY2 : t.d2.synsets = s2.synsets := fY
+  have hSfin : db'.senses = t.d7.senses := congrArg (fun x => x.2.2.2.2.1) hpost
+  have hS7 : t.d7.senses = m1.senses := congrArg (fun x => x.2.2) m2k
+  have hSm1 : m1.senses = t.d6.senses := congrArg (fun x => x.2.2.2) m1k
+  have hS6 : t.d6.senses = n2.senses := congrArg (fun x => x.2.2.2.2) q3
+  have hSn2 : n2.senses = n1.senses := fS
+  refine ⟨⟨prow, ?_, ?_⟩, ⟨arow, ?_, ?_⟩, ⟨srow, ?_, ?_⟩, ⟨brow, ?_, ?_⟩⟩
+  · -- pilis
+    have e1 : db'.pilis = t.d7.pilis := congrArg (fun x => x.1) hpost
+    have e2 : t.d7.pilis = m1.pilis := congrArg (fun x => x.1) m2k
+    have e3 : m1.pilis = t.d6.pilis := congrArg (fun x => x.1) m1k
+    have e4 : t.d6.pilis = n2.pilis := congrArg (fun x => x.1) q3
+    have e5 : n2.pilis = n1.pilis := congrArg (fun x => x.1) q2
+    have e6 : n1.pilis = t.d5.pilis := congrArg (fun x => x.1) q1
+    have e7 : t.d5.pilis = t.d2.pilis := congrArg (fun x => x.1) (k5.trans (k4.trans k3))
+    have e8 : s2.pilis = db.pilis := by
+      have := congrArg (fun x => x.1) (p2.trans (p1.trans k1)); exact this
+    rw [e1, e2, e3, e4, e5, e6, e7, hprow, e8]
+  · intro r hr
+    obtain ⟨y, hy, hyl, hyr⟩ := hpP r hr
+    exact ⟨y, by rw [hYeq, hY2]; exact hy, hyl, hyr⟩
+  · -- adjs
+    have e1 : db'.adjs = t.d7.adjs := congrArg (fun x => x.2.1) hpost
+    have e2 : t.d7.adjs = m1.adjs := congrArg (fun x => x.2.1) m2k
+    have e3 : m1.adjs = t.d6.adjs := congrArg (fun x => x.2.1) m1k
+    have e4 : t.d6.adjs = n2.adjs := congrArg (fun x => x.2.1) q3
+    have e6 : n1.adjs = t.d5.adjs := congrArg (fun x => x.2.1) q1
+    have e7 : t.d5.adjs = t.d2.adjs := congrArg (fun x => x.2.1) (k5.trans (k4.trans k3))
+    have e7b : t.d2.adjs = s2.adjs := congrArg (fun x => x.1) p3
+    have e8 : s2.adjs = db.adjs := by
+      have := congrArg (fun x => x.2.1) (p2.trans (p1.trans k1)); exact this
+    rw [e1, e2, e3, e4, harow, e6, e7, e7b, e8]
+  · intro r hr
+    obtain ⟨x, hx, hxr, hxl⟩ := haP r hr
+    exact ⟨x, by rw [hSfin, hS7, hSm1, hS6, hSn2]; exact hx, hxr, hxl⟩
+  · -- sbs
+    have e1 : db'.sbs = t.d7.sbs := congrArg (fun x => x.2.2.1) hpost
+    have e2 : t.d7.sbs = m1.sbs := fB
+    have e4 : t.d6.sbs = n2.sbs := congrArg (fun x => x.2.2.1) q3
+    have e5 : n2.sbs = n1.sbs := congrArg (fun x => x.2.1) q2
+    have e6 : n1.sbs = t.d5.sbs := congrArg (fun x => x.2.2.1) q1
+    have e7 : t.d5.sbs = t.d2.sbs := congrArg (fun x => x.2.2.1) (k5.trans (k4.trans k3))
+    have e7b : t.d2.sbs = s2.sbs := congrArg (fun x => x.2.1) p3
+    have e8 : s2.sbs = db.sbs := by
+      have := congrArg (fun x => x.2.2.1) (p2.trans (p1.trans k1)); exact this
+    rw [e1, e2, hsrow, e4, e5, e6, e7, e7b, e8]
+  · have e4 : t.d6.sbs = n2.sbs := congrArg (fun x => x.2.2.1) q3
+    have e5 : n2.sbs = n1.sbs := congrArg (fun x => x.2.1) q2
+    have e6 : n1.sbs = t.d5.sbs := congrArg (fun x => x.2.2.1) q1
+    have e7 : t.d5.sbs = t.d2.sbs := congrArg (fun x => x.2.2.1) (k5.trans (k4.trans k3))
+    have e7b : t.d2.sbs = s2.sbs := congrArg (fun x => x.2.1) p3
+    have e8 : s2.sbs = db.sbs := by
+      have := congrArg (fun x => x.2.2.1) (p2.trans (p1.trans k1)); exact this
+    have : t.d6.sbs = db.sbs := by rw [e4, e5, e6, e7, e7b, e8]
+    intro r hr
+    have := hsP r hr
+    rw [‹t.d6.sbs = db.sbs›] at this
+    exact this
+  · -- sbsenses
+    have e1 : db'.sbsenses = t.d7.sbsenses := congrArg (fun x => x.2.2.2.1) hpost
+    have e3 : m1.sbsenses = t.d6.sbsenses := congrArg (fun x => x.2.2.1) m1k
+    have e4 : t.d6.sbsenses = n2.sbsenses := congrArg (fun x => x.2.2.2.1) q3
+    have e5 : n2.sbsenses = n1.sbsenses := congrArg (fun x => x.2.2) q2
+    have e6 : n1.sbsenses = t.d5.sbsenses := congrArg (fun x => x.2.2.2) q1
+    have e7 : t.d5.sbsenses = t.d2.sbsenses := congrArg (fun x => x.2.2.2) (k5.trans (k4.trans k3))
+    have e7b : t.d2.sbsenses = s2.sbsenses := congrArg (fun x => x.2.2) p3
+    have e8 : s2.sbsenses = db.sbsenses := by
+      have := congrArg (fun x => x.2.2.2) (p2.trans (p1.trans k1)); exact this
+    rw [e1, hbrow, e3, e4, e5, e6, e7, e7b, e8]
+  · intro r hr
+    obtain ⟨x, hx, hxl, hxr⟩ := hbP r hr
+    have e1 : db'.sbs = t.d7.sbs := congrArg (fun x => x.2.2.1) hpost
+    have e2 : t.d7.sbs = m1.sbs := fB
+    exact ⟨x, by rw [e1, e2]; exact hx, hxl, hxr⟩
+
+/-- **C05: `remove` undoes `add`, remaining tables** — definitions (including the `SET NULL` on their
+source sense), syntactic behaviours and their sense links, proposed ILIs and the lexicon row are
+restored for any lexicon; adjective positions for a plain lexicon -/
+theorem C05_add_then_delete_restores_rest (norm : String → String) (dr : Nat) (db db' : Db) (l : Lexicon)
+    (h : addLexicon norm dr db l = .ok db') (fk : FK db)
+    (hnS : (db.senses.map (·.rowid)).Nodup) (hnE : (db.entries.map (·.rowid)).Nodup)
+    (hnY : (db.synsets.map (·.rowid)).Nodup) (hnI : (db.ilis.map (·.rowid)).Nodup)
+    :
+    let d := deleteLexicon db' (nextId (db.lexicons.map (·.rowid)))
+    d.lexicons = db.lexicons ∧ d.defs = db.defs ∧ d.sbs = db.sbs ∧ d.sbsenses = db.sbsenses ∧ d.pilis = db.pilis ∧
+    (l.ext = none → d.adjs = db.adjs) := by
+  obtain ⟨t⟩ := addLexicon_split norm dr db db' l h
+  obtain ⟨_, _, hlexid0, hextid⟩ := insertLexicon_frame _ _ _ _ _ t.hlex
+  have hlexid : t.lexid = nextId (db.lexicons.map (·.rowid)) := hlexid0
+  have hfresh : ∀ (x : Nat), (∃ y ∈ db.lexicons, y.rowid = x) → x ≠ t.lexid := by
+    rintro x ⟨y, hy, rfl⟩ e
+    have : t.lexid ∈ db.lexicons.map (·.rowid) := List.mem_map.mpr ⟨y, hy, e⟩
+    rw [hlexid] at this
+    exact nextId_not_mem _ this
+  rw [← hlexid]
+  obtain ⟨_, g2, g3⟩ := insertLexicon_frame2 _ _ _ _ _ t.hlex
+  obtain ⟨_, hYeq, _⟩ := addLexicon_synrel_table t
+  obtain ⟨hE, _, srows, hS, hFs, hnodS⟩ := addLexicon_sense_table t
+  obtain ⟨⟨r4, hr4, hF4⟩, _, _⟩ := addLexicon_defs_tables t
+  obtain ⟨⟨prow, hP, hPp⟩, ⟨arow, hA, hAp⟩, ⟨brow, hB, hBp⟩, ⟨lrow, hL, hLp⟩⟩ := addLexicon_misc_tables t
+  have hd1i : t.d1.ilis = db.ilis := by
+    have h := t.hlex
+    unfold insertLexicon at h
+    simp only [bind, Except.bind, pure, Except.pure] at h
+    split at h
+    · simp [throw, throwThe, MonadExcept.throw] at h
+    · split at h
+      · split at h
+        · simp at h
+        · simp only [Except.ok.injEq, Prod.mk.injEq] at h
+          obtain ⟨h, _, _⟩ := h; rw [← h]; rfl
+      · simp only [Except.ok.injEq, Prod.mk.injEq] at h
+        obtain ⟨h, _, _⟩ := h; rw [← h]; rfl
+  obtain ⟨yrows, hyE, hyF⟩ := insertSynsets_rows t.d1 t.d2 l _ t.hsyn (by rw [hd1i]; exact hnI)
+  have hY : db'.synsets = db.synsets ++ yrows := by rw [hYeq, hyE, g2]; rfl
+  have hynew : ∀ r ∈ yrows, r.lex = t.lexid := Forall2.forall_right (fun _ _ hr => hr.2.1) hyF
+  have hyold : ∀ o ∈ db.synsets, o.lex ≠ t.lexid := fun o ho => hfresh _ (fk.synsets_lex o ho)
+  have hsnew : ∀ r ∈ srows, r.lex = t.lexid := Forall2.forall_right (fun _ _ hr => hr.2.1) hFs
+  have hsold : ∀ o ∈ db.senses, o.lex ≠ t.lexid := fun o ho => hfresh _ (fk.senses_lex o ho)
+  obtain ⟨erows, hEx, henew⟩ : ∃ erows, db'.entries = db.entries ++ erows ∧ ∀ r ∈ erows, r.lex = t.lexid := by
+    have e2 := (keepsF_insertSynsets l _ _ _ t.hsyn).1
+    have h3 := t.hent
+    unfold insertEntries at h3
+    obtain ⟨_, er, he, hFe⟩ := foldlM_rows1 (fun d => d.entries) (fun _ => ()) (entryStep t.ctx) (fun _ _ r => r.lex = t.lexid)
+      (fun b a b' hh => by
+        obtain ⟨r, hb, hr⟩ := entryStep_ok _ b b' a hh
+        exact ⟨rfl, r, by rw [hb], hr.1.2.1⟩) _ _ _ h3
+    exact ⟨er, by rw [hE, he, e2, g3]; rfl, Forall2.forall_right (P := fun (r : REntry) => r.lex = t.lexid) (fun _ _ hr => hr) hFe⟩
+  have heold : ∀ o ∈ db.entries, o.lex ≠ t.lexid := fun o ho => hfresh _ (fk.entries_lex o ho)
+  have hnY' : (db'.synsets.map (·.rowid)).Nodup := by
+    rw [hYeq]; apply insertSynsets_nodupY _ _ _ _ t.hsyn; rw [g2]; exact hnY
+  have hnE' : (db'.entries.map (·.rowid)).Nodup := by
+    rw [hE]; apply insertEntries_nodupE _ _ _ _ t.hent
+    rw [(keepsF_insertSynsets l _ _ _ t.hsyn).1, g3]; exact hnE
+  have hnS' : (db'.senses.map (·.rowid)).Nodup := hnodS hnS
+  have hYdel : synsetsDel db' t.lexid = yrows.map (·.rowid) := by
+    unfold synsetsDel; rw [hY]; exact del_eq_new db.synsets yrows (fun r => r.lex) (fun r => r.rowid) _ hyold hynew
+  have hEdel : entriesDel db' t.lexid = erows.map (·.rowid) := by
+    unfold entriesDel; rw [hEx]; exact del_eq_new db.entries erows (fun r => r.lex) (fun r => r.rowid) _ heold henew
+  have oldY : ∀ x, (∃ y ∈ db.synsets, y.rowid = x) → (synsetsDel db' t.lexid).contains x = false := by
+    rintro x ⟨y, hy, rfl⟩
+    rw [hYdel]
+    have := old_not_new db.synsets yrows (fun r => r.rowid) (by rw [← hY]; exact hnY') y.rowid (List.mem_map.mpr ⟨y, hy, rfl⟩)
+    simpa using this
+  have oldE : ∀ x, (∃ y ∈ db.entries, y.rowid = x) → (entriesDel db' t.lexid).contains x = false := by
+    rintro x ⟨y, hy, rfl⟩
+    rw [hEdel]
+    have := old_not_new db.entries erows (fun r => r.rowid) (by rw [← hEx]; exact hnE') y.rowid (List.mem_map.mpr ⟨y, hy, rfl⟩)
+    simpa using this
+  have hgoneOld : ∀ o ∈ db.senses, senseGone db' t.lexid o = false := by
+    intro o ho
+    unfold senseGone
+    have a1 : (o.lex == t.lexid) = false := by simpa using hsold o ho
+    rw [a1, oldE _ (fk.senses_entry o ho), oldY _ (fk.senses_synset o ho)]
+    rfl
+  have hgoneNew : ∀ r ∈ srows, senseGone db' t.lexid r = true := by
+    intro r hr; unfold senseGone; simp [hsnew r hr]
+  have hSdel : sensesDel db' t.lexid = srows.map (·.rowid) := by
+    unfold sensesDel
+    rw [hS, List.filter_append]
+    have e1 : db.senses.filter (senseGone db' t.lexid) = [] := by
+      rw [List.filter_eq_nil_iff]; intro o ho; simp [hgoneOld o ho]
+    have e2 : srows.filter (senseGone db' t.lexid) = srows := by
+      rw [List.filter_eq_self]; intro r hr; exact hgoneNew r hr
+    rw [e1, e2, List.nil_append]
+  have oldS : ∀ x, (∃ y ∈ db.senses, y.rowid = x) → (sensesDel db' t.lexid).contains x = false := by
+    rintro x ⟨y, hy, rfl⟩
+    rw [hSdel]
+    have := old_not_new db.senses srows (fun r => r.rowid) (by rw [← hS]; exact hnS') y.rowid (List.mem_map.mpr ⟨y, hy, rfl⟩)
+    simpa using this
+  have lexNe : ∀ x, (∃ y ∈ db.lexicons, y.rowid = x) → (x == t.lexid) = false := by
+    intro x hx; simpa using hfresh x hx
+  -- sbs: rowids stay unique, the new rows are exactly those the cascade deletes
+  have hbold : ∀ o ∈ db.sbs, o.lex ≠ t.lexid := fun o ho => hfresh _ (fk.sbs_lex o ho)
+  have hBdel : sbsDel db' t.lexid = brow.map (·.rowid) := by
+    unfold sbsDel; rw [hB]; exact del_eq_new db.sbs brow (fun r => r.lex) (fun r => r.rowid) _ hbold (fun r hr => (hBp r hr).1)
+  -- lexicons
+  obtain ⟨hL1, _, _⟩ := C01_lexicon_row _ _ _ _ _ t.hlex
+  simp only [deleteLexicon]
+  refine ⟨?_, ?_, ?_, ?_, ?_, ?_⟩
+  · -- lexicons: kept by every later pass
+    let c : Ctx := ⟨t.lexid, t.extid, externalIds l⟩
+    let π : Db → List RLexicon := fun b => b.lexicons
+    have k2 : π t.d2 = π t.d1 := keepsGF_insertSynsets π l c (fun p => by keepsG_step presupStep)
+      (by keepsG_step synsetStep) (by keepsG_step piliStep) _ _ t.hsyn
+    have k3 : π t.d3 = π t.d2 := keepsGF_insertEntries π l c (by keepsG_step entryStep) _ _ t.hent
+    have k4 : π t.d4 = π t.d3 := keepsGF_insertForms π (fun _ _ => rfl) norm l c _ _ t.hform
+    have k5 : π t.d5 = π t.d4 := keepsGF_insertPronsTags π l c (fun _ _ _ => by keepsG_step pronStep)
+      (fun _ _ _ => by keepsG_step tagStep) _ _ t.hpt
+    have k6 : π t.d6 = π t.d5 := keepsGF_insertSenses π l c dr (fun _ => by keepsG_step senseStep)
+      (by keepsG_step adjStep) (fun _ => by keepsG_step countStep) _ _ t.hsen
+    have k7 : π t.d7 = π t.d6 := keepsGF_insertSbs π t.sbs c (by keepsG_step sbStep) (fun _ => by keepsG_step sbSenseStep) _ _ t.hsb
+    have k8 : π t.d8 = π t.d7 := keepsGF_insertRelations π l c (fun _ => by keepsG_step synRelStep)
+      (by keepsG_step senseRelStep) (by keepsG_step senseSynRelStep) _ _ t.hrel
+    have k9 : π db' = π t.d8 := keepsGF_insertDefsExamples π l c (fun _ => by keepsG_step defStep)
+      (fun _ => by keepsG_step senseExampleStep) (fun _ => by keepsG_step synsetExampleStep) _ _ t.hdx
+    have hLx : db'.lexicons = db.lexicons ++ [⟨t.lexid, l.id, l.label, l.language, l.email, l.license, l.version, l.url, l.citation, l.logo, l.md⟩] := by
+      show π db' = _
+      rw [k9, k8, k7, k6, k5, k4, k3, k2]
+      exact hL1
+    rw [hLx]
+    have := filter_restores db.lexicons [⟨t.lexid, l.id, l.label, l.language, l.email, l.license, l.version, l.url, l.citation, l.logo, l.md⟩]
+      (fun r => r.rowid == t.lexid) (fun o ho => lexNe _ ⟨o, ho, rfl⟩) (fun r hr => by simp only [List.mem_singleton] at hr; subst hr; simp)
+    simpa [bne] using this
+  · -- definitions
+    rw [hr4]
+    rw [filter_restores db.defs r4 (fun r => r.lex == t.lexid || (synsetsDel db' t.lexid).contains r.synset)
+      (fun o ho => by rw [lexNe _ (fk.defs_lex o ho), oldY _ (fk.defs_synset o ho)]; rfl)
+      (fun r hr => by have := Forall2.forall_right (fun _ _ hh => hh.1) hF4 r hr; simp [show r.lex = t.lexid from this])]
+    have : ∀ o ∈ db.defs, unlinkSense (sensesDel db' t.lexid) o = o := by
+      intro o ho
+      unfold unlinkSense
+      cases hs : o.sense with
+      | none => rfl
+      | some s => simp only; rw [oldS _ (fk.defs_sense o ho s hs)]; rfl
+    rw [List.map_congr_left this]; simp
+  · rw [hB]
+    have := filter_restores db.sbs brow (fun r => r.lex == t.lexid) (fun o ho => by simpa using hbold o ho) (fun r hr => by simpa using (hBp r hr).1)
+    simpa [bne] using this
+  · rw [hL]
+    exact filter_restores db.sbsenses lrow (fun r => (sbsDel db' t.lexid).contains r.sb || (sensesDel db' t.lexid).contains r.sense)
+      (fun o ho => by
+        obtain ⟨x, hx, hxr⟩ := fk.sbsenses_sb o ho
+        have h1 : (sbsDel db' t.lexid).contains o.sb = false := by
+          rw [hBdel]
+          have : x.rowid ∉ brow.map (fun r => r.rowid) := by
+            intro hm
+            obtain ⟨r, hr, hrr⟩ := List.mem_map.mp hm
+            exact (hBp r hr).2 (by rw [hrr]; exact List.mem_map.mpr ⟨x, hx, rfl⟩)
+          rw [← hxr]; simpa using this
+        rw [h1, oldS _ (fk.sbsenses_sense o ho)]; rfl)
+      (fun r hr => by
+        obtain ⟨x, hx, hxl, hxr⟩ := hLp r hr
+        have : (sbsDel db' t.lexid).contains r.sb = true := by
+          rw [List.contains_iff_mem]
+          unfold sbsDel
+          exact List.mem_map.mpr ⟨x, List.mem_filter.mpr ⟨hx, by simpa using hxl⟩, hxr⟩
+        rw [this]; rfl)
+  · rw [hP]
+    exact filter_restores db.pilis prow (fun r => (synsetsDel db' t.lexid).contains r.synset)
+      (fun o ho => oldY _ (fk.pilis_synset o ho))
+      (fun r hr => by
+        obtain ⟨y, hy, hyl, hyr⟩ := hPp r hr
+        rw [List.contains_iff_mem, mem_synsetsDel]
+        exact ⟨y, hy, hyl, hyr⟩)
+  · intro hplain
+    have hlid : ∀ i, t.ctx.lid i = t.lexid := by
+      intro i; unfold Ctx.lid AddTrace.ctx; simp [hextid hplain]
+    rw [hA]
+    exact filter_restores db.adjs arow (fun r => (sensesDel db' t.lexid).contains r.sense)
+      (fun o ho => oldS _ (fk.adjs_sense o ho))
+      (fun r hr => by
+        obtain ⟨x, hx, hxr, i, hxl⟩ := hAp r hr
+        rw [hlid] at hxl
+        rw [List.contains_iff_mem, mem_sensesDel]
+        refine ⟨x, hx, ?_, hxr⟩
+        unfold senseGone; simp [hxl])
 
 end WnVerif.Props.C05
